@@ -568,7 +568,11 @@ func init() {
 				if ver[id] == 5 {
 					opt = fmt.Sprintf("%s:%d:0:0:0", hs(f), r.Intn(2))
 				}
-				emit(fmt.Sprintf("bk.send %d SUBSCRIBE id=%d f=%s", open[id], pid, opt))
+				si := ""
+				if ver[id] == 5 && r.Intn(2) == 0 { // subscription identifiers: one per SUBSCRIBE, different ones on overlapping filters
+					si = fmt.Sprintf(" si=%d", 1+r.Intn(4))
+				}
+				emit(fmt.Sprintf("bk.send %d SUBSCRIBE id=%d%s f=%s", open[id], pid, si, opt))
 			}
 			// every member joins the first group filter, so the group is populated from the start
 			for _, id := range ids {
@@ -584,7 +588,7 @@ func init() {
 					emit(fmt.Sprintf("bk.send 1 PUBLISH q=%d id=%d t=%s p=%s", r.Intn(2), 1+r.Intn(3), hs(pick(r, topics)), hs(fmt.Sprintf("s%d", done))))
 				case !ok:
 					conn(id)
-				case k < 12:
+				case k < 11:
 					sub(id, pick(r, shared))
 				case k < 13:
 					sub(id, pick(r, plain))
